@@ -202,6 +202,7 @@ Lemma map_loop : forall E o, repr s E o -> NoDup l0 -> (forall n, In n l0 -> In 
         /\ same_shape o o' /\ (x = Done -> todo = []) /\ (forall n, In n todo -> In n l0)
         /\ (x = Done \/ exists n e, In n l0 /\ g n (E n) = Err e /\ x = Raised e)
         /\ (x = Done -> forall n, In n l0 -> exists r, g n (E n) = Ok r)
+        /\ (forall n, In n l0 -> ~ In n todo -> exists r, g n (E n) = Ok r)
   end.
 Proof.
   intros E o R ND Hsub.
@@ -212,7 +213,8 @@ Proof.
   pose (F := fun (st : mstate) (x : outcome) =>
     exists ext todo, fst st = s ++ ext /\ repr (fst st) (Emix E todo) (snd st) /\ frame_rel s o (fst st) (snd st)
       /\ same_shape o (snd st) /\ (forall n, In n todo -> In n l0) /\ x <> Done
-      /\ (exists n e, In n l0 /\ g n (E n) = Err e /\ x = Raised e)).
+      /\ (exists n e, In n l0 /\ g n (E n) = Err e /\ x = Raised e)
+      /\ (forall n, In n l0 -> ~ In n todo -> exists r, g n (E n) = Ok r)).
   pose proof (loop_ind _ f J F l0 (s, o)) as L.
   assert (J0 : J l0 (s, o)).
   { exists []; cbn; rewrite app_nil_r; splits; auto; try apply frame_refl; try apply same_shape_refl.
@@ -260,13 +262,14 @@ Proof.
       + eapply A7'; reflexivity.
     - exists ext, (a :: r); cbn [fst snd]; splits; auto; try discriminate; try (unfold same_shape; splits; assumption).
       exists a, e; splits; auto. apply mem_In; assumption. }
+  (* (the last conjunct of F is J's bookkeeping of the processed names) *)
   specialize (L Hs).
   destruct (loop f l0 (s, o)) as [[s' o'] x]; destruct x.
   - destruct L as (ext & A1 & A2 & A3 & A4 & A5 & A6 & A7); cbn [fst snd] in *.
     exists ext, []; splits; auto; try apply A4.
-  - destruct L as (ext & todo & A1 & A2 & A3 & A4 & A5 & A6 & A7); cbn [fst snd] in *.
+  - destruct L as (ext & todo & A1 & A2 & A3 & A4 & A5 & A6 & A7 & A8); cbn [fst snd] in *.
     exists ext, todo; splits; auto; try apply A4; intros; congruence.
-  - destruct L as (ext & todo & A1 & A2 & A3 & A4 & A5 & A6 & A7); cbn [fst snd] in *.
+  - destruct L as (ext & todo & A1 & A2 & A3 & A4 & A5 & A6 & A7 & A8); cbn [fst snd] in *.
     exists ext, todo; splits; auto; try apply A4; intros; congruence.
 Qed.
 End MapLoop.
